@@ -332,6 +332,16 @@ class ExtrasMixin:
         start = getattr(self, "iter_call_start", [0])[-1]
         return VInt(len([c for c in self.run.calls[start:] if c["name"].endswith(suf)]))
 
+    def spec_arg_in_iter(self, node, frame):
+        """i-th positional argument of the last call (this iteration) to a collaborator named *suffix"""
+        suf = node.args[0].value
+        i = node.args[1].value
+        start = getattr(self, "iter_call_start", [0])[-1]
+        for c in reversed(self.run.calls[start:]):
+            if c["name"].endswith(suf) and len(c["args"]) > i:
+                return c["args"][i]
+        return NONE
+
     def spec_returned_in_iter(self, node, frame):
         suf = node.args[0].value
         start = getattr(self, "iter_call_start", [0])[-1]
